@@ -16,6 +16,8 @@ TEXT = {
          "bounds: position widths and MMR sizes (2-3 leaves quick) per obligation in evidence; the proof-soundness clause (corrupted proofs fail) is only a thorough-tier attempt under an ideal-hash stub and is not part of the claim"),
  "C08": ("Bounded proof (Kani/CBMC) by induction on the prune list's operations: from ANY valid prune-list state (maximal pruned subtrees + defining prefix sums, symbolic) every query equals the definition, and one real append / init_caches re-establishes such a state for the enlarged pruned set.",
          "partial: prune-list arithmetic over a correct bitmap (CRoaring replaced by a 64-value bitset); universe 31 positions quick / 63 thorough, at most 3 (4) entries in the pre-state; the file layer, PMMRBackend index translation, reopen and chain-level compaction are not claimed"),
+ "C20": ("Bounded proof (Kani/CBMC) of the recoverability encoding that is left in Rust: key id <-> derivation path round trips, and for both proof-builder generations the rewind message written for (key id, switch) is read back as exactly that for the wallet's own commitment while any other message byte, amount, length or wallet recovers nothing (model keychain with an injective commit).",
+         "thin partial claim: everything executed inside libsecp256k1-zkp (BIP32 derivation, commitments, bulletproofs, aggsig, blind sums) and build::transaction are not claimed"),
  "C10": ("Bounded proof (Kani/CBMC) of value round trip, canonical bytes (decode then re-encode reproduces the consumed bytes) and version-independent hashes for the fixed-size consensus objects.",
          "partial: containers, headers, segments and p2p messages not yet encoded"),
  "C11": ("Bounded proof (Kani/CBMC): listed decoders and Segment::validate never panic / over-allocate / spin on any byte string or decoded-shape value of the listed sizes.",
@@ -39,7 +41,6 @@ NA = {
  "C17": "Kani does not model thread interleavings",
  "C18": "semantics live in LMDB behind heed (FFI), plus threads and f32",
  "C15": "1024-bit chunks x MMR hashing: first form measured not to finish (40 min); not yet retried in the reduced form",
- "C20": "model keychain not yet instantiated; everything else is libsecp256k1-zkp FFI",
 }
 
 # properties that have obligations in the plan for experiments but are NOT claimed (nothing finishes yet)
